@@ -224,29 +224,65 @@ def requests_stream(ctx, exe, thorough):
     for ty in cat:
         by_sig.setdefault(wg.erased(wg.parse_ext(ty)), []).append(ty)
         by_plain.setdefault(wg.plain_name(ty), []).append(ty)
-    asked = [ty for ty in cat if "v[" in ty or "V[" in ty] + r.sample(cat, 300 if thorough else 80)
-    pairs = []
+    # the marshal-only types (5-tuples) can be written through the typed API as well
+    monly_by_sig = {}
+    for ty in wg.catalogue_marshal_only():
+        if not wg.forbidden_variant_content(wg.parse_ext(ty)) and not wg.count_leaves(wg.parse_ext(ty), "h"):
+            monly_by_sig.setdefault(wg.erased(wg.parse_ext(ty)), []).append(ty)
+    # every tuple arity with an Unmarshal impl (1..4) is asked for, top level and as an array element: 10 types of each (thorough: all)
+    by_arity = {}
+    for ty in cat:
+        t = wg.parse_ext(ty)
+        if t[0] == "r" or (t[0] == "a" and t[1][0] == "r"):
+            by_arity.setdefault((t[0], len(t[1] if t[0] == "r" else t[1][1])), []).append(ty)
+    tuples = [ty for k in sorted(by_arity) for ty in (by_arity[k] if thorough else r.sample(by_arity[k], min(10, len(by_arity[k]))))]
+    asked = [ty for ty in cat if "v[" in ty or "V[" in ty] + tuples + r.sample(cat, 300 if thorough else 80)
+    pairs = []          # (S, T, byte order, place, tree to write through the dynamic API or None = typed)
+
+    def typed_variants_only(t):
+        return t[0] == "b" or (t[0] == "v" and t[1] is not None and typed_variants_only(t[1])) or (t[0] == "a" and typed_variants_only(t[1])) \
+            or (t[0] == "e" and typed_variants_only(t[2])) or (t[0] == "r" and all(typed_variants_only(x) for x in t[1]))
     for T in asked:
         t = wg.parse_ext(T)
         srcs = [r.choice(by_plain[wg.plain_name(T)]), r.choice(cat), r.choice(["y", "u", "s", "g", "t", "ay", "(y)", "a{sy}"])]
         if t[0] == "v" and wg.erased(t[1]) in by_sig:
             srcs.append(r.choice(by_sig[wg.erased(t[1])]))            # the variant's content, bare
-        for nm in wg.near_misses(t)[:2]:
-            if wg.erased(nm) in by_sig:
-                srcs.append(r.choice(by_sig[wg.erased(nm)]))
+        # near misses: for a tuple of arity n the arities n+1 (first n fields the same, then a u8 / the last field again) and n-1 (without
+        # the last / the first field), then one changed field; containers around a near miss of their content. Written through the typed
+        # API when a catalogue or marshal-only type has that signature, otherwise through the dynamic API (push_old_param of the tree): a
+        # near miss always finds a body
+        for nm in wg.near_misses(t)[:5 if T in tuples else 2]:
+            s = wg.erased(nm)
+            if s in by_sig:
+                srcs.append(r.choice(by_sig[s]))
+            elif s in monly_by_sig:
+                srcs.append(r.choice(monly_by_sig[s]))
+            elif typed_variants_only(nm) and wg.sig_valid(nm) and not wg.forbidden_variant_content(nm):
+                srcs.append(nm)
         srcs += by_sig.get(wg.erased(t), [])[:3]                       # same D-Bus type (variants may hold something else)
         for S in srcs:
-            pairs.append((S, T, r.choice(["le", "be"]), r.choice(PLACES)))
+            if isinstance(S, tuple):
+                pairs.append((wg.erased(S), T, r.choice(["le", "be"]), r.choice(PLACES), S))
+            else:
+                pairs.append((S, T, r.choice(["le", "be"]), r.choice(PLACES), None))
     first = []
-    for S, T, bo, place in pairs:
-        toks, _ = wg.gen_value(r, wg.parse_ext(S))
-        first.append("MT %s %s 0 %s" % (S, bo, " ".join(toks)))
+    for S, T, bo, place, tree in pairs:
+        toks, _ = wg.gen_value(r, tree if tree else wg.parse_ext(S))
+        if tree:
+            first.append("%s %s 0 %s" % (r.choice(["MP", "MPR", "MPX"]), bo, " ".join(toks)))
+            ctx.count("request:written through the dynamic API")
+        else:
+            first.append("MT %s %s 0 %s" % (S, bo, " ".join(toks)))
+        tt = wg.parse_ext(T)
+        ssig = wg.erased(tree if tree else wg.parse_ext(S))
+        if tt[0] == "r" and ssig.startswith(wg.erased(tt)[:-1]) and len(ssig) > len(wg.erased(tt)):
+            ctx.count("request:tuple of arity %d asked on a longer tuple with the same first fields" % len(tt[1]))
     ok, out1, err = vlib.par_run_lines(exe, [], first, robust=True)
     if not ok:
         ctx.tie_broken("wire harness crashed (requests stream)", err)
         return 0
     second = []
-    for (S, T, bo, place), o in zip(pairs, out1):
+    for (S, T, bo, place, _), o in zip(pairs, out1):
         f = fields(o)
         second.append("GT%s %s %s 0 %s %s" % (place, T, bo, f.get("sig", "-"), f.get("buf", "-")) if f["res"] == "ok" else "CAT")
     ok, out2, err = vlib.par_run_lines(exe, [], second, robust=True)
@@ -254,7 +290,7 @@ def requests_stream(ctx, exe, thorough):
         ctx.tie_broken("wire harness crashed (requests stream)", err)
         return 0
     n = 0
-    for (S, T, bo, place), l1, o1, l2, o2 in zip(pairs, first, out1, second, out2):
+    for (S, T, bo, place, _), l1, o1, l2, o2 in zip(pairs, first, out1, second, out2):
         if l2 == "CAT":
             continue
         n += 1
